@@ -50,6 +50,14 @@ func legalPrefix(seq []string) int {
 // realiseSeq builds a concrete chunk stream for a kind sequence (legal or not).
 // Payloads are tiny but depend on properties, position and dictionary content.
 func realiseSeq(r *prng.R, seq []string, withEnd bool) (stream []byte, contents [][]byte) {
+	return realiseSeqBulk(r, seq, withEnd, false)
+}
+
+// realiseSeqBulk: with bulk, payloads are drawn from tiny up to thousands of operations and
+// uncompressed chunks up to 64 KiB, so that the 4 KiB dictionary has been filled and wrapped
+// around before a later reset, literals follow bytes with every context, and matches reach as
+// far back as the data since the last dictionary reset allows.
+func realiseSeqBulk(r *prng.R, seq []string, withEnd, bulk bool) (stream []byte, contents [][]byte) {
 	w := &ref.Window{DictSize: 4096}
 	var enc *ref.Encoder
 	for _, k := range seq {
@@ -59,6 +67,9 @@ func realiseSeq(r *prng.R, seq []string, withEnd bool) (stream []byte, contents 
 				w.DictStart = len(w.Out)
 			}
 			n := r.Range(1, 3)
+			if bulk {
+				n = r.Pick(1, 3, 500, 5000, 4096, 65536)
+			}
 			b := make([]byte, n)
 			r.Bytes(b)
 			w.Out = append(w.Out, b...)
@@ -87,11 +98,22 @@ func realiseSeq(r *prng.R, seq []string, withEnd bool) (stream []byte, contents 
 		}
 		enc.Restart()
 		nops := r.Range(1, 3)
+		if bulk {
+			nops = r.Pick(1, 3, 40, 600, 2500, 6000)
+		}
 		for j := 0; j < nops; j++ {
 			var op ref.Op
 			switch r.Intn(4) {
 			case 0:
 				op = ref.Op{Kind: ref.OpMatch, Dist: uint32(r.Range(1, 4)), Len: r.Range(2, 5)}
+				if avail := len(w.Out) - w.DictStart; bulk && avail > 4 && r.Bool() {
+					// as far back as legal: the oldest byte since the reset, or of the window
+					if avail > 4096 {
+						avail = 4096
+					}
+					op.Dist = uint32(r.Pick(avail, avail, avail-1, r.Range(1, avail)))
+					op.Len = r.Pick(2, 5, 30, 273)
+				}
 			case 1:
 				op = ref.Op{Kind: ref.OpRep0 + ref.OpKind(r.Intn(2)), Len: r.Range(2, 4)}
 			case 2:
@@ -154,17 +176,19 @@ func checkC16(c *ev.Ctx) {
 	c.Set("max_sequence_length", L)
 	c.Exhaustive(true)
 	c.Set("exhaustive_part", fmt.Sprintf("chunk-kind sequences up to length %d (with and without end chunk) and all 256 control bytes in first and second position; payloads and the writer-side workload are sampled", L))
-	par(len(seqs), func(i int) {
-		seq := seqs[i]
+	judgeSeq := func(i int, seq []string, bulk int) {
 		for e := 0; e < 2; e++ {
 			withEnd := e == 1
 			id := fmt.Sprintf("seq:%s:%d", strings.Join(seq, ","), e)
+			if bulk > 0 {
+				id = fmt.Sprintf("bulk%d:%s:%d", bulk, strings.Join(seq, ","), e)
+			}
 			noteCase(id)
 			if !want(c, id) {
 				continue
 			}
-			r := prng.New(c.Seed, 16, uint64(i), uint64(e))
-			stream, contents := realiseSeq(r, seq, withEnd)
+			r := prng.New(c.Seed, 16, uint64(i), uint64(e), uint64(bulk))
+			stream, contents := realiseSeqBulk(r, seq, withEnd, bulk > 0)
 			lp := legalPrefix(seq)
 			var wantOut []byte
 			for _, b := range contents[:lp] {
@@ -192,7 +216,13 @@ func checkC16(c *ev.Ctx) {
 			out, err, pn := readLZMA2(stream, 4096)
 			det := map[string]any{"case_id": id, "sequence": seq, "with_end": withEnd, "legal_prefix": lp, "stream_hex": ev.Hex(stream, 1024),
 				"expected_bytes_hex": ev.Hex(wantOut, 256), "got_bytes_hex": ev.Hex(out, 256), "got_error": fmt.Sprint(err)}
-			c.Eval(id, true)
+			if bulk > 0 {
+				c.Count("bulky_payload_streams", 1)
+				c.Count("bulky_payload_bytes", int64(len(wantOut)))
+				c.Eval("bulk:"+strings.Join(seq, ","), true)
+			} else {
+				c.Eval(id, true)
+			}
 			switch {
 			case pn != nil:
 				det["what"] = "Reader2 panicked: " + pn.Value
@@ -223,6 +253,21 @@ func checkC16(c *ev.Ctx) {
 				c.Sample(map[string]any{"sequence": seq, "with_end": withEnd, "legal_prefix": lp, "stream_hex": ev.Hex(stream, 200), "reader_error": fmt.Sprint(err), "bytes_out": len(out)})
 			}
 		}
+	}
+	par(len(seqs), func(i int) { judgeSeq(i, seqs[i], 0) })
+	// the same sequences with bulky payloads (sampled): resets in the middle of the sequence
+	// come after the dictionary has been filled
+	nbulk := 2500
+	if thorough(c) {
+		nbulk = 60000
+	}
+	par(nbulk, func(k int) {
+		r := prng.New(c.Seed, 161, uint64(k))
+		i := r.Intn(len(seqs))
+		if len(seqs[i]) < 2 {
+			return
+		}
+		judgeSeq(i, seqs[i], 1+k)
 	})
 	// all 256 control bytes, first and second position
 	par(512, func(i int) {
